@@ -178,7 +178,8 @@ def run_kani_cfg(cfg, obls, results, key):
     os.makedirs(BUILD, exist_ok=True)
     export = os.path.join(BUILD, 'kani_%s_%d_%d.json' % (cfg, os.getpid(), int(time.time() * 1000) % 100000))
     mem = sum(o['mem'] for o in todo)
-    jobs = max(1, min(len(todo), NCPU - 2, int(len(todo) * 44 / max(mem, 1)) or 1))
+    # memory-aware parallelism: at most ~40 GB of estimated CBMC/kani-driver RSS in flight (62 GB, no swap)
+    jobs = max(1, min(len(todo), NCPU - 2, int(len(todo) * 40 / max(mem, 1)) or 1))
     timeout = max(o['timeout'] for o in todo) * (3 if os.environ.get('VERIF_TIER_RUNNING') == 'thorough' else 1)
     cmd = kani_cmd(cfg, [o['path'] for o in todo], jobs, timeout, export)
     log('[kani:%s] %d harnesses, -j %d, timeout %ds' % (cfg, len(todo), jobs, timeout))
@@ -498,6 +499,8 @@ def check_property(prop, tier, seed=0):
         if obls:
             th = threading.Thread(target=run_kani_cfg, args=(cfg, obls, results, kkey))
             th.start()
+            if tier == 'thorough':
+                th.join()   # the large thorough obligations need the memory: one configuration at a time
             threads.append(th)
     nobls = registry.native_for(prop, tier)
     if nobls:
